@@ -335,7 +335,7 @@ func loopHeads(fn *ssa.Function) []*ssa.BasicBlock {
 	var out []*ssa.BasicBlock
 	for _, b := range fn.Blocks {
 		for _, p := range b.Preds {
-			if p.Index >= b.Index && b.Dominates(p) {
+			if b.Dominates(p) {
 				out = append(out, b)
 				break
 			}
